@@ -10,7 +10,7 @@ for name in $names; do
   applied=""
   # the patch was written for /repo HEAD of its time; later fix: commits may conflict with it, then the base it was
   # confirmed against is used (newest first)
-  for base in HEAD dbb59a8 0da4da8 9a6d764; do
+  for base in HEAD beae9e9 dbb59a8 0da4da8 9a6d764; do
     git -C /repo worktree add -q --detach $d $base || continue
     if git -C $d apply $src/patch.diff 2>/dev/null || { git -C $d apply -3 $src/patch.diff 2>/dev/null && ! git -C $d diff --name-only --diff-filter=U | grep -q .; }; then applied=$base; break; fi
     git -C /repo worktree remove --force $d 2>/dev/null
